@@ -38,7 +38,9 @@ class Result(object):
     def violation(self, key, monitor, message, case):
         """key: mechanism key (what kind of failure), never a seed or hash."""
         self.count('violations.' + key)
-        if len(self.violations) < 400:
+        # keep a few witnesses per mechanism key (never let one frequent key
+        # crowd out the others)
+        if self.counters['violations.' + key] <= 3:
             self.violations.append({'key': key, 'monitor': monitor,
                                     'message': message, 'case': case})
 
@@ -67,8 +69,13 @@ class Result(object):
         self.distinct |= other.distinct
         for k, v in other.counters.items():
             self.counters[k] = self.counters.get(k, 0) + v
-        room = 2000 - len(self.violations)
-        self.violations.extend(other.violations[:max(room, 0)])
+        have = {}
+        for v in self.violations:
+            have[v['key']] = have.get(v['key'], 0) + 1
+        for v in other.violations:
+            if have.get(v['key'], 0) < 3:
+                self.violations.append(v)
+                have[v['key']] = have.get(v['key'], 0) + 1
         for s in other.samples:
             if len(self.samples) < 8:
                 self.samples.append(s)
